@@ -5,6 +5,11 @@ HERE = os.path.dirname(os.path.abspath(__file__))
 BASELINE = "cd /repo && /venv/bin/python -m pytest -ra -q -p no:cacheprovider --timeout=900 --continue-on-collection-errors"
 
 CLAIMED = {
+ "C19": {
+  "text": "Deductive, per instruction: every `case CODE_*` block of ForthMachineOf<int64_t,int32_t>::internal_run is extracted from the clang AST of the working tree as its own unit (inline helpers of the class inlined from their own AST) and proved, for all machine states satisfying the machine invariant, to (a) access the data stack / do-stack / recursion stack only inside their extents, never divide by zero or trap, (b) re-establish the invariant at every exit, set the documented error code exactly when the documented condition holds, and (c) for the stack, arithmetic and comparison words, compute the documented result (floor division and modulo included) and leave the rest of the stack unchanged. ForthInputBuffer::read/seek/skip keep 0 <= pos <= length and move exactly as documented; ForthOutputBufferOf<int64_t> writes stay inside the (re)allocated buffer, never go through a pointer taken before a reallocation, and preserve what was already written (growth settings cannot change results); reset() clears every piece of run state. Programs are not enumerated; the compile-time half and step/run/resume sequencing are not covered.",
+  "ref": "DESIGN.md section 5 (C19), section 2.4",
+  "note": "Trusted: compiled bytecode is well-formed (operands in range), maybe_resize meets its contract, external calls on buffer objects only write current_error_, signed overflow treated as mathematical; see evidence trusted_base. One known finding (shift amounts).",
+  "technique": "contract-based deductive verification of the extracted instruction blocks and buffer methods (self-written VC generator over the clang AST, z3/cvc5)"},
  "C13": {
   "text": "Deductive: for every extern \"C\" kernel symbol of kernel-specification.yml the real C++ body (clang AST of the working tree, template instantiation per specialization) is checked (a) in lockstep bisimulation against its Python definition: every assigned value, every written index, every branch/loop condition and the error/no-error outcome are proved equal by z3/cvc5 for all argument values under the contract's precondition and all loop iterations (E obligations); (b) against sidecar contracts: array accesses within the stated extents, divisors non-zero, invariants inductive (S/I/F obligations); (c) signature/forwarding obligations (YAML args vs C parameters, wrapper forwards in order). Kernels whose definition cannot be aligned are listed as bounded and only compared with the definition by a differential run of the compiled kernel; kernels with no definition get S/F obligations only.",
   "ref": "DESIGN.md section 5 (C13), section 2.2",
